@@ -983,8 +983,24 @@ func (m *Machine) unwind(p goPanic) bool {
 		}
 		m.frames = m.frames[:len(m.frames)-1]
 	}
-	// uncaught panic: implicit no-panic assertion fails on this path
-	m.recordViolation("panic", "no-panic", p.msg)
+	// uncaught panic: implicit no-panic assertion fails on this path -- unless the path, kept
+	// on an `unknown` feasibility answer, turns out infeasible now that a model is needed
+	infeasible := false
+	func() {
+		defer func() {
+			if r := recover(); r != nil {
+				if _, ok := r.(killPath); ok {
+					infeasible = true
+					return
+				}
+				panic(r)
+			}
+		}()
+		m.recordViolation("panic", "no-panic", p.msg)
+	}()
+	if infeasible {
+		return false
+	}
 	m.endPath("panic")
 	return false
 }
